@@ -484,7 +484,7 @@ Definition check_integrity (v : variant) (options : opts) (t : tables) : res Z :
   if o_trees o then check_tree_integrity v t else Ok 0.
 
 (* ---- the variant the correspondence uses (the code as it is in /repo) ---- *)
-Definition code_variant : variant := repaired.
+Definition code_variant : variant := faithful.
 
 (* tsk_treeseq_init: num_trees = check_integrity(tables, TSK_CHECK_TREES) *)
 Definition check (t : tables) : res Z := check_integrity code_variant opts_trees t.
